@@ -95,6 +95,19 @@ def fwd_default(ctx, obs, prefixes: Sequence[str], rule='FWD-default') -> int:
                 obs.bad(rule, q, con,
                         f'`{norm(c.node)[:110]}` passes nothing for `{p}`: {g.split(".")[-1]} uses its default '
                         f'`{norm(dflt) if dflt is not None else "?"}` and the caller\'s `{p}` is silently dropped', where(prog, f, c.node))
+    # calls to NEW private helpers were inlined before the analysis (sa/inline.py): the parameters they left at the helper's default
+    # are recorded there; a default taken for a name the calling function itself has as a parameter drops the caller's option
+    for mname, m in prog.modules.items():
+        for owner, helper, dflt, line, text in getattr(m.tree, '_inline_defaulted', []):
+            cands = [q for q, f in prog.functions.items() if q.startswith(mname + '.') and f.name == owner and _in_scope(q, prefixes)]
+            for q in cands:
+                f = prog.functions[q]
+                for p in dflt:
+                    if p in f.params and p not in ('self', 'cls'):
+                        n += 1
+                        obs.bad(rule, q, f'`{p}` reaches the helper {helper} (the call does not fall back on the helper default)',
+                                f'`{text}` (line {line}) passes nothing for `{p}`: the helper uses its default and the caller\'s `{p}` is '
+                                f'silently dropped', where(prog, f, f.node))
     return n
 
 
